@@ -48,6 +48,7 @@ def run(chk):
     d6_demag(chk, repo)
     d7_completions(chk, repo)
     d8_newell(chk, repo)
+    d9_max_angle(chk, repo)
     chk.trust("np.einsum('...j,...j->...') is the per-cell dot product; np.arccos o np.clip[-1,1] lies in [0, pi]; "
               "itertools.product([0,1], repeat=6) enumerates the 64 corner combinations")
     chk.assume("integer charges, invariance under vector rotation, trace -1 of the Fourier-space tensor, agreement of the two "
@@ -748,3 +749,49 @@ def d8_newell(chk, repo):
     chk.ob("tools.tools._N::element-functions", names == ["_f", "_f", "_f", "_g", "_g", "_g"], "C19.D8",
            f"elements are computed with {names}; expected f for the three diagonal and g for the three off-diagonal elements",
            w.f, rets[0] if rets else None)
+
+
+# ------------------------------------------------------------------ D9
+def d9_max_angle(chk, repo):
+    chk.rule("C19.D9", "maximum neighbouring-cell angle: for every direction the angle field (one cell shorter) is written once "
+                       "shifted to the upper cells (slice(1, None) along that axis) and once to the lower cells (slice(-1)), into "
+                       "two channels of its own; the result is the maximum over all 2*ndim channels on the field's mesh")
+    v = FV(repo, T + "max_neighbouring_cell_angle", param_types=PT)
+    loops = [s_ for s_ in v.stmts() if isinstance(s_, ast.For)]
+    chk.require(len(loops) == 1, "max_neighbouring_cell_angle: the loop over the directions vanished")
+    lp = loops[0]
+    it = v.term(lp.iter, at=lp)
+    ok_it = v.eq(it, v.spec("enumerate(field.mesh.region.dims)"))
+    i_ = v.ctx.mk(("index",), (v.spec("field.mesh.region.dims"),))
+    d_ = each(v, v.spec("field.mesh.region.dims"))
+    env = {"i": i_, "d": d_}
+    want_val = v.spec("neighbouring_cell_angle(field, d, units=units).array.squeeze()", env=env)
+    up = v.spec("[slice(1, None) if i == j else slice(None) for j in range(field.mesh.region.ndim)]", env=env)
+    lo = v.spec("[slice(-1) if i == j else slice(None) for j in range(field.mesh.region.ndim)]", env=env)
+    got = []
+    for st in walk_stmts(lp.body):
+        if isinstance(st, ast.Assign) and isinstance(st.targets[0], ast.Subscript):
+            idx = v.ev._index(st.targets[0].slice, v.cfg.node(st), None)
+            hd = v.ctx.head_of(idx)
+            parts = list(v.ctx.args_of(idx)) if hd and hd[0] == "tuple" else []
+            if len(parts) == 2 and (v.ctx.head_of(parts[0]) or ("",))[0] == "star":
+                got.append((v.ctx.args_of(parts[0])[0], parts[1], v.term(st.value, at=st), st))
+    ok_up = any(v.eq(a, up) and v.eq(c, v.spec("2 * i", env=env)) and v.eq(val, want_val) for a, c, val, st in got)
+    ok_lo = any(v.eq(a, lo) and v.eq(c, v.spec("2 * i + 1", env=env)) and v.eq(val, want_val) for a, c, val, st in got)
+    chk.ob(T + "max_neighbouring_cell_angle::channels", ok_it and len(got) == 2 and ok_up and ok_lo, "C19.D9",
+           "per direction i: channel 2i holds the angles at [1:] along axis i, channel 2i+1 the angles at [:-1]; both from "
+           "neighbouring_cell_angle(field, dim, units=units)", v.f, lp)
+    news = cm.returned_news(v)
+    chk.require(news, "max_neighbouring_cell_angle: no Field construction")
+    r, a = news[0]
+    val = a.get("value")
+    c = decode_call(v.ctx, val) if val is not None else None
+    okm = bool(c and c[0] == ".max" and is_const(v.ctx, c[2].get("axis", v.ctx.const(0)), -1) and
+               is_const(v.ctx, c[2].get("keepdims", v.ctx.const(0)), True))
+    if okm:
+        base = strip_stores(v.ctx, c[1][0])
+        okm = any(v.eq(b_, v.spec("np.zeros((*field.mesh.n, 2 * field.mesh.region.ndim))")) for b_ in base)
+    chk.ob(T + "max_neighbouring_cell_angle::maximum", okm and v.eq(a.get("mesh"), v.spec("field.mesh")) and
+           is_const(v.ctx, a.get("nvdim"), 1), "C19.D9",
+           "the result is max(axis=-1, keepdims=True) of a zero-initialised (*n, 2*ndim) array, as a scalar field on field.mesh",
+           v.f, r)
